@@ -255,7 +255,7 @@ def c04(ctx):
         TL = [T(x) for x in L]
         n = len(L)
         mt = r.choice(maxtau_grid(g))
-        m = r.choice(mrts_grid(g)[:3])
+        m = r.choice(mrts_grid(g))
         nsp = sum(len(x) for x in L)
         if nsp >= 3:
             ctx.nontrivial(("c04", core.enc(TL), mt, m))
@@ -1422,7 +1422,7 @@ def c14(ctx):
     lists = ctx.part(lists)
     for L in lists:
         n = len(L)
-        m = r.choice(mrts_grid(g)[:3])
+        m = r.choice(mrts_grid(g))
         mt = r.choice(maxtau_grid(g))
         ri = r.random() < 0.5
         iv = r.choice(intervals_for(r, g, 1))
@@ -1967,6 +1967,19 @@ def c18(ctx):
                 ctx.check()
                 if isinstance(v, core.Err) or not core.all_finite(v):
                     ctx.violate("scalar/matrix result raises or is not finite", name, [TL, str(mv), mt, ri, repr(iv)], got=v)
+        if n >= 3:
+            # every multivariate function with an arbitrary admissible index selection
+            sel = r.sample(range(n), r.randint(2, n))
+            for name, f, kw, kind in [(p_[0], p_[1], p_[2], p_[3]) for p_ in profs] + \
+                    [(s_[0], s_[1], s_[2], None) for s_ in scal if s_[0] != "filter_by_spike_sync"]:
+                v = core.call_impl(lambda: q(lambda: f(sts, indices=list(sel), **kw)))
+                ctx.check()
+                bad = wf_profile(v, kind) if kind else (None if (not isinstance(v, core.Err) and core.all_finite(v)) else "raises or is not finite")
+                if name == "spike_directionality_values" and not bad:
+                    if [len(x) for x in v] != [len(L[i]) for i in sel]:
+                        bad = "value arrays do not have the lengths of the selected trains"
+                if bad:
+                    ctx.violate("with indices=%r: %s" % (sel, bad), name, [TL, str(mv), mt, ri], got=v)
         if n == 2:
             A, B = TL
             cases += [(50, [False, m, A, B]), (51, [False, m, ri, A, B]), (52, [False, mt, m, A, B]),
